@@ -55,7 +55,8 @@ class FakeReactor(object):
   def callLater(self, delay, f, *a, **k):
     fac = getattr(f, '__self__', None)
     clock = self.run.send_clocks.setdefault(getattr(fac, 'destination', None), task.Clock())
-    return clock.callLater(delay, f, *a, **k)
+    # (a zero delay still means "in a later reactor iteration": task.Clock would run it inside the current advance())
+    return clock.callLater(max(delay, 1e-6), f, *a, **k)
 
   def callWhenRunning(self, *a, **k):
     pass
